@@ -431,3 +431,197 @@ package engine
 //@ let $reg = result (cache.Informer).AddEventHandler
 //@ ensures [C13:started-source-remembers-its-registration] err == nil ==> s.reg == $reg
 //@ ensures [C13:failed-start-registers-nothing-new] err != nil ==> s.reg == old(s.reg)
+
+// C13 (informer tracking): the table of active informers is read under its lock and written
+// under the write lock, and the wrapped cache is called while that lock is still held - marking
+// a kind (in)active and creating or dropping its informer are one atomic step, so a start
+// request can never register a handler on an informer that is being dropped.
+
+//@ func (*engine.InformerTrackingCache).Get
+//@ props C13
+//@ ghost held int = 0
+//@ optional site (*sync.RWMutex).RLock($m)
+//@   assert [C13:tracking-lock-not-reentered] held == 0
+//@   update held = 1
+//@ optional site (*sync.RWMutex).RUnlock($m)
+//@   assert [C13:tracking-unlock-matches-lock] held == 1
+//@   update held = 0
+//@ optional site (*sync.RWMutex).Lock($m)
+//@   assert [C13:tracking-lock-not-reentered] held == 0
+//@   update held = 2
+//@ optional site (*sync.RWMutex).Unlock($m)
+//@   assert [C13:tracking-unlock-matches-lock] held == 2
+//@   update held = 0
+//@ optional site builtin.maplookup($mp, _) as read-active
+//@   where $mp == c.active
+//@   assert [C13:active-table-read-under-lock] held != 0
+//@ optional site builtin.maprange($mp) as range-active
+//@   where $mp == c.active
+//@   assert [C13:active-table-read-under-lock] held != 0
+//@ optional site builtin.mapupdate($mp, _, _) as write-active
+//@   where $mp == c.active
+//@   assert [C13:active-table-written-under-write-lock] held == 2
+//@ optional site builtin.delete($mp, _) as delete-active
+//@   where $mp == c.active
+//@   assert [C13:active-table-written-under-write-lock] held == 2
+//@ site *.Get($w, $rest...) as wrapped-cache
+//@   where $w == c.Cache
+//@   assert [C13:wrapped-cache-called-under-the-tracking-lock] held != 0
+//@ ensures [C13:tracking-lock-released] held == 0
+
+//@ func (*engine.InformerTrackingCache).List
+//@ props C13
+//@ ghost held int = 0
+//@ optional site (*sync.RWMutex).RLock($m)
+//@   assert [C13:tracking-lock-not-reentered] held == 0
+//@   update held = 1
+//@ optional site (*sync.RWMutex).RUnlock($m)
+//@   assert [C13:tracking-unlock-matches-lock] held == 1
+//@   update held = 0
+//@ optional site (*sync.RWMutex).Lock($m)
+//@   assert [C13:tracking-lock-not-reentered] held == 0
+//@   update held = 2
+//@ optional site (*sync.RWMutex).Unlock($m)
+//@   assert [C13:tracking-unlock-matches-lock] held == 2
+//@   update held = 0
+//@ optional site builtin.maplookup($mp, _) as read-active
+//@   where $mp == c.active
+//@   assert [C13:active-table-read-under-lock] held != 0
+//@ optional site builtin.maprange($mp) as range-active
+//@   where $mp == c.active
+//@   assert [C13:active-table-read-under-lock] held != 0
+//@ optional site builtin.mapupdate($mp, _, _) as write-active
+//@   where $mp == c.active
+//@   assert [C13:active-table-written-under-write-lock] held == 2
+//@ optional site builtin.delete($mp, _) as delete-active
+//@   where $mp == c.active
+//@   assert [C13:active-table-written-under-write-lock] held == 2
+//@ site *.List($w, $rest...) as wrapped-cache
+//@   where $w == c.Cache
+//@   assert [C13:wrapped-cache-called-under-the-tracking-lock] held != 0
+//@ ensures [C13:tracking-lock-released] held == 0
+
+//@ func (*engine.InformerTrackingCache).GetInformer
+//@ props C13
+//@ ghost held int = 0
+//@ optional site (*sync.RWMutex).RLock($m)
+//@   assert [C13:tracking-lock-not-reentered] held == 0
+//@   update held = 1
+//@ optional site (*sync.RWMutex).RUnlock($m)
+//@   assert [C13:tracking-unlock-matches-lock] held == 1
+//@   update held = 0
+//@ optional site (*sync.RWMutex).Lock($m)
+//@   assert [C13:tracking-lock-not-reentered] held == 0
+//@   update held = 2
+//@ optional site (*sync.RWMutex).Unlock($m)
+//@   assert [C13:tracking-unlock-matches-lock] held == 2
+//@   update held = 0
+//@ optional site builtin.maplookup($mp, _) as read-active
+//@   where $mp == c.active
+//@   assert [C13:active-table-read-under-lock] held != 0
+//@ optional site builtin.maprange($mp) as range-active
+//@   where $mp == c.active
+//@   assert [C13:active-table-read-under-lock] held != 0
+//@ optional site builtin.mapupdate($mp, _, _) as write-active
+//@   where $mp == c.active
+//@   assert [C13:active-table-written-under-write-lock] held == 2
+//@ optional site builtin.delete($mp, _) as delete-active
+//@   where $mp == c.active
+//@   assert [C13:active-table-written-under-write-lock] held == 2
+//@ site *.GetInformer($w, $rest...) as wrapped-cache
+//@   where $w == c.Cache
+//@   assert [C13:wrapped-cache-called-under-the-tracking-lock] held != 0
+//@ ensures [C13:tracking-lock-released] held == 0
+
+//@ func (*engine.InformerTrackingCache).GetInformerForKind
+//@ props C13
+//@ ghost held int = 0
+//@ optional site (*sync.RWMutex).RLock($m)
+//@   assert [C13:tracking-lock-not-reentered] held == 0
+//@   update held = 1
+//@ optional site (*sync.RWMutex).RUnlock($m)
+//@   assert [C13:tracking-unlock-matches-lock] held == 1
+//@   update held = 0
+//@ optional site (*sync.RWMutex).Lock($m)
+//@   assert [C13:tracking-lock-not-reentered] held == 0
+//@   update held = 2
+//@ optional site (*sync.RWMutex).Unlock($m)
+//@   assert [C13:tracking-unlock-matches-lock] held == 2
+//@   update held = 0
+//@ optional site builtin.maplookup($mp, _) as read-active
+//@   where $mp == c.active
+//@   assert [C13:active-table-read-under-lock] held != 0
+//@ optional site builtin.maprange($mp) as range-active
+//@   where $mp == c.active
+//@   assert [C13:active-table-read-under-lock] held != 0
+//@ optional site builtin.mapupdate($mp, _, _) as write-active
+//@   where $mp == c.active
+//@   assert [C13:active-table-written-under-write-lock] held == 2
+//@ optional site builtin.delete($mp, _) as delete-active
+//@   where $mp == c.active
+//@   assert [C13:active-table-written-under-write-lock] held == 2
+//@ site *.GetInformerForKind($w, $rest...) as wrapped-cache
+//@   where $w == c.Cache
+//@   assert [C13:wrapped-cache-called-under-the-tracking-lock] held != 0
+//@ ensures [C13:tracking-lock-released] held == 0
+
+//@ func (*engine.InformerTrackingCache).RemoveInformer
+//@ props C13
+//@ ghost held int = 0
+//@ optional site (*sync.RWMutex).RLock($m)
+//@   assert [C13:tracking-lock-not-reentered] held == 0
+//@   update held = 1
+//@ optional site (*sync.RWMutex).RUnlock($m)
+//@   assert [C13:tracking-unlock-matches-lock] held == 1
+//@   update held = 0
+//@ optional site (*sync.RWMutex).Lock($m)
+//@   assert [C13:tracking-lock-not-reentered] held == 0
+//@   update held = 2
+//@ optional site (*sync.RWMutex).Unlock($m)
+//@   assert [C13:tracking-unlock-matches-lock] held == 2
+//@   update held = 0
+//@ optional site builtin.maplookup($mp, _) as read-active
+//@   where $mp == c.active
+//@   assert [C13:active-table-read-under-lock] held != 0
+//@ optional site builtin.maprange($mp) as range-active
+//@   where $mp == c.active
+//@   assert [C13:active-table-read-under-lock] held != 0
+//@ optional site builtin.mapupdate($mp, _, _) as write-active
+//@   where $mp == c.active
+//@   assert [C13:active-table-written-under-write-lock] held == 2
+//@ optional site builtin.delete($mp, _) as delete-active
+//@   where $mp == c.active
+//@   assert [C13:active-table-written-under-write-lock] held == 2
+//@ site *.RemoveInformer($w, $rest...) as wrapped-cache
+//@   where $w == c.Cache
+//@   assert [C13:wrapped-cache-called-under-the-tracking-lock] held != 0
+//@ ensures [C13:tracking-lock-released] held == 0
+
+//@ func (*engine.InformerTrackingCache).ActiveInformers
+//@ props C13
+//@ ghost held int = 0
+//@ optional site (*sync.RWMutex).RLock($m)
+//@   assert [C13:tracking-lock-not-reentered] held == 0
+//@   update held = 1
+//@ optional site (*sync.RWMutex).RUnlock($m)
+//@   assert [C13:tracking-unlock-matches-lock] held == 1
+//@   update held = 0
+//@ optional site (*sync.RWMutex).Lock($m)
+//@   assert [C13:tracking-lock-not-reentered] held == 0
+//@   update held = 2
+//@ optional site (*sync.RWMutex).Unlock($m)
+//@   assert [C13:tracking-unlock-matches-lock] held == 2
+//@   update held = 0
+//@ optional site builtin.maplookup($mp, _) as read-active
+//@   where $mp == c.active
+//@   assert [C13:active-table-read-under-lock] held != 0
+//@ optional site builtin.maprange($mp) as range-active
+//@   where $mp == c.active
+//@   assert [C13:active-table-read-under-lock] held != 0
+//@ optional site builtin.mapupdate($mp, _, _) as write-active
+//@   where $mp == c.active
+//@   assert [C13:active-table-written-under-write-lock] held == 2
+//@ optional site builtin.delete($mp, _) as delete-active
+//@   where $mp == c.active
+//@   assert [C13:active-table-written-under-write-lock] held == 2
+//@ ensures [C13:tracking-lock-released] held == 0
